@@ -148,6 +148,13 @@ def conditional(with_x):
                 for k in reversed(order):
                     chain = ('if', arms[k], [pins[k]], chain)
                 out.append(chain)
+    # conditions that are not comparisons: a multi-bit field or a bit-wise expression counts as true when non-zero
+    nb = [P_, ('bin', '&', P_, ('lit', 2)), ('bin', '^', P_, Q_)] + ([X_] if with_x else [])
+    for c in nb:
+        for s1 in ex[1:4]:
+            out.append(('implies', c, [s1]))
+            out.append(('if', c, [s1], [ex[4]]))
+        out.append(('if', ('bin', '==', Q_, ('lit', 0)), [ex[1]], ('if', c, [ex[5]], [ex[3]])))
     for c1, c2 in itertools.permutations(m[:3], 2):
         out.append(('if', c1, [ex[4]], ('if', c2, [ex[5]], None)))
         out.append(('implies', c1, [('if', c2, [ex[4]], [ex[5]])]))
